@@ -6,10 +6,10 @@ import common as C
 
 PID = "C13"
 # (the cg-matrix correspondence also uses the "C12 cg" op of TfPwaV.Model.WignerF)
-DRIVER = [("C13", "TfPwaV.Model.LS", "LS.handle")]
+DRIVER = [("C13", "TfPwaV.Model.LSX", "LSX.handle")]
 LEAN_TARGETS = ["TfPwaV.Props.C13", "TfPwaV.Props.C13b"]
 PROP_MODULES = ["TfPwaV.Props.C13", "TfPwaV.Props.C13b"]
-ALL_MODULES = ["TfPwaV.Model.LS", "TfPwaV.Model.LSGram", "TfPwaV.Props.C13", "TfPwaV.Props.C13b"] + ["TfPwaV.Proofs.LSGram%d" % i for i in range(6)]
+ALL_MODULES = ["TfPwaV.Model.LS", "TfPwaV.Model.LSX", "TfPwaV.Model.LSGram", "TfPwaV.Props.C13", "TfPwaV.Props.C13b"] + ["TfPwaV.Proofs.LSGram%d" % i for i in range(6)]
 ASSUMPTIONS = [
     "spins enter GetA2BC_LS_list as int (integer) or float k/2 (half-integer), as the config loader produces them",
     "parities/C-parities are +1/-1 or None",
@@ -127,6 +127,84 @@ def correspond_ls(ctx, res):
             res.fail("get_ls_list:l_list", "HelicityDecay.get_ls_list with l_list=%s for 2J=(%d,%d,%d) P=(%d,%d,%d) p_break=%s gives [%s], filtered rule gives [%s]" % (
                 l_list, ja, jb, jc, pa, pb, pc, pbk, got, want), {"ja2": ja, "jb2": jb, "jc2": jc, "P": [pa, pb, pc], "p_break": pbk, "l_list": l_list})
     res.coverage["l_list_cases"] = n_l
+    correspond_restrict(ctx, res)
+
+
+def correspond_restrict(ctx, res):
+    """User restrictions of HelicityDecay (l_list / ls_list, integer AND half-integer s, written the way a configuration
+    delivers them: ints for integer values, floats for half-integers, and also 1.0-style floats) vs LS.filterL /
+    LS.filterLS of the model (the definitions C13.ls_restrict is about), and the restricted LS->helicity matrix vs the
+    corresponding rows of the unrestricted one."""
+    import numpy as np
+    from tf_pwa.amp import HelicityDecay, Particle
+    rnd = random.Random(ctx.seed + 7)
+    lines, impl, meta = [], [], []
+    n_half = 0
+    k = 0
+    n_cases = 120 if ctx.quick else 1200
+    while len(lines) < n_cases:
+        k += 1
+        ja, jb, jc = rnd.randint(0, 6), rnd.randint(0, 4), rnd.randint(0, 4)
+        if (ja + jb + jc) % 2:
+            continue
+        pa, pb, pc = rnd.choice([1, -1]), rnd.choice([1, -1]), rnd.choice([1, -1])
+        pbk = rnd.random() < 0.4
+        full = oracle(ja, jb, jc, pa, pb, pc, pbk, None)
+        if not full:
+            continue
+        mk = lambda tag: (Particle("r%s%d" % (tag, k), J=spin(ja), P=pa), [Particle("s%s%d" % (tag, k), J=spin(jb), P=pb), Particle("t%s%d" % (tag, k), J=spin(jc), P=pc)])
+        a0, o0 = mk("u")
+        d0 = HelicityDecay(a0, o0, p_break=pbk, disable=True)
+        m0 = np.asarray(d0.get_cg_matrix(), dtype=float)
+        ls0 = canon(d0.get_ls_list()).split()
+        kind = rnd.choice(["ls", "ls", "l"])
+        style = rnd.choice(["plain", "float"])  # 1 vs 1.0 for integer values
+        num = (lambda x2: (x2 // 2 if style == "plain" else float(x2 // 2)) if x2 % 2 == 0 else x2 / 2.0)
+        a1, o1 = mk("v")
+        if kind == "ls":
+            sel = [p for p in full if rnd.random() < 0.6] or [rnd.choice(full)]
+            if rnd.random() < 0.15:  # a pair outside the rule list is simply not in the rule-filtered list
+                pass
+            arg = [[(l if style == "plain" else float(l)), num(s2)] for l, s2 in sel]
+            try:
+                d1 = HelicityDecay(a1, o1, p_break=pbk, ls_list=arg, disable=True)
+                got = canon(d1.get_ls_list())
+            except Exception as e:
+                got = "raise:" + type(e).__name__
+                d1 = None
+            lines.append("C13 lss %d %d %d %d %d %d %d N %s" % (ja, jb, jc, pa, pb, pc, int(pbk), ";".join("%d,%d" % p for p in sel) or "-"))
+            want_py = " ".join("%d,%d" % p for p in sel)
+        else:
+            ll = sorted(rnd.sample(range(0, 7), rnd.randint(1, 3)))
+            arg = [(l if style == "plain" else float(l)) for l in ll]
+            try:
+                d1 = HelicityDecay(a1, o1, p_break=pbk, l_list=arg, disable=True)
+                got = canon(d1.get_ls_list())
+            except Exception as e:
+                got = "raise:" + type(e).__name__
+                d1 = None
+            lines.append("C13 lsl %d %d %d %d %d %d %d N %s" % (ja, jb, jc, pa, pb, pc, int(pbk), ",".join(map(str, ll))))
+            want_py = " ".join("%d,%d" % p for p in full if p[0] in ll)
+        impl.append(got)
+        n_half += (jb + jc) % 2
+        what = "HelicityDecay(2J=(%d,%d,%d), P=(%d,%d,%d), p_break=%s, %s=%r)" % (ja, jb, jc, pa, pb, pc, pbk, "ls_list" if kind == "ls" else "l_list", arg)
+        rp = {"kind": "restrict", "ja2": ja, "jb2": jb, "jc2": jc, "P": [pa, pb, pc], "p_break": pbk, "opt": "ls_list" if kind == "ls" else "l_list", "arg": arg}
+        if got != want_py:
+            res.fail("get_ls_list:" + ("ls_list" if kind == "ls" else "l_list"), "%s.get_ls_list() gives [%s], the requested allowed couplings are [%s]" % (what, got, want_py), rp)
+        elif d1 is not None and got:
+            m1 = np.asarray(d1.get_cg_matrix(), dtype=float)
+            rows = [ls0.index(w) for w in got.split()]
+            if m1.shape != m0[rows].shape or not np.allclose(m1, m0[rows], atol=1e-12):
+                res.fail("get_cg_matrix:restricted", "%s.get_cg_matrix() is not the rows %s of the unrestricted LS->helicity matrix (max |diff| %s)" % (
+                    what, rows, "shape %s vs %s" % (m1.shape, m0[rows].shape) if m1.shape != m0[rows].shape else "%.3g" % float(np.max(np.abs(m1 - m0[rows])))), rp)
+            elif np.linalg.matrix_rank(m1.reshape(len(rows), -1)) != len(rows):
+                res.fail("get_cg_matrix:restricted:rank", "%s: restricted LS->helicity matrix has rank %d < %d" % (what, int(np.linalg.matrix_rank(m1.reshape(len(rows), -1))), len(rows)), rp)
+    model = ctx.model.query(lines)
+    dis = [(l, a, b) for l, a, b in zip(lines, impl, model) if a != b]
+    res.coverage["restrict_cases"] = len(lines)
+    res.coverage["restrict_cases_half_integer_s"] = n_half
+    if dis:
+        res.broke("correspondence filterL/filterLS vs HelicityDecay.get_ls_list(l_list/ls_list)", {"op": dis[0][0], "impl": dis[0][1], "model": dis[0][2], "n": len(dis)})
 
 
 def correspond(ctx, res):
@@ -258,12 +336,40 @@ def replay(ctx, payload):
         print("impl:", got)
         print("rule:", oracle(ja, jb, jc, pa, pb, pc, pbk, ca))
         return 0 if sorted((int(l), int(round(2 * s))) for l, s in got) == oracle(ja, jb, jc, pa, pb, pc, pbk, ca) else 1
+    if r.get("kind") == "restrict" or "l_list" in r:
+        import numpy as np
+        from tf_pwa.amp import HelicityDecay, Particle
+        ja, jb, jc = r["ja2"], r["jb2"], r["jc2"]
+        pa, pb, pc = r["P"]
+        opt_name = r.get("opt", "l_list")
+        arg = r.get("arg", r.get("l_list"))
+        mk = lambda t: (Particle("rp%sA" % t, J=spin(ja), P=pa), [Particle("rp%sB" % t, J=spin(jb), P=pb), Particle("rp%sC" % t, J=spin(jc), P=pc)])
+        a0, o0 = mk("u")
+        d0 = HelicityDecay(a0, o0, p_break=r["p_break"], disable=True)
+        a1, o1 = mk("v")
+        d1 = HelicityDecay(a1, o1, p_break=r["p_break"], disable=True, **{opt_name: arg})
+        full = oracle(ja, jb, jc, pa, pb, pc, r["p_break"], None)
+        if opt_name == "ls_list":
+            want = [(int(l), int(round(2 * s_))) for l, s_ in arg if (int(l), int(round(2 * s_))) in full]
+        else:
+            want = [p for p in full if p[0] in [int(x) for x in arg]]
+        got = [(int(l), int(round(2 * s_))) for l, s_ in d1.get_ls_list()]
+        print("impl:", got)
+        print("requested allowed couplings:", want)
+        if got != want:
+            return 1
+        ls0 = [(int(l), int(round(2 * s_))) for l, s_ in d0.get_ls_list()]
+        m0 = np.asarray(d0.get_cg_matrix(), dtype=float)[[ls0.index(p) for p in got]]
+        m1 = np.asarray(d1.get_cg_matrix(), dtype=float)
+        ok = m1.shape == m0.shape and np.allclose(m1, m0, atol=1e-12) and (not got or np.linalg.matrix_rank(m1.reshape(len(got), -1)) == len(got))
+        print("restricted LS->helicity matrix = rows of the unrestricted one, full rank:", ok)
+        return 0 if ok else 1
     print(payload)
     return 0
 
 
 MANIFEST = {
-    "text": "Lean theorems for ALL spins (unbounded): membership in the modelled (l,s) list <-> triangle/parity/C-parity rule (ls_mem_iff), strictly sorted hence duplicate-free (ls_sorted, ls_nodup), l_list restriction, cut criterion; kernel-decided count theorem (#couplings = #independent helicity amplitudes) on the whole 2j<=8 grid; exact orthonormality of the columns of the LS->helicity matrix, hence full rank, for all spin triples with 2j<=5 (ls_gram_orthonormal). The model is tied to GetA2BC_LS_list by exact comparison over the spin/parity grid on every run.",
-    "note": "Model = TfPwaV.LS.lsList (hand-written, doubled spins) validated against the real GetA2BC_LS_list on the grid 2j<=8 x parities x p_break x ca (quick: 2j<=5 + 12000 sampled rows; thorough: whole grid). Full rank is proved for the exact CG model (2j<=5) and re-checked numerically on the real get_cg_matrix (2j<=5 quick, <=6 thorough). Trusted: Lean kernel, standard axioms, harness.",
+    "text": "Lean theorems for ALL spins (unbounded): membership in the modelled (l,s) list <-> triangle/parity/C-parity rule (ls_mem_iff), strictly sorted hence duplicate-free (ls_sorted, ls_nodup), l_list restriction, cut criterion; kernel-decided count theorem (#couplings = #independent helicity amplitudes) on the whole 2j<=8 grid; exact orthonormality of the columns of the LS->helicity matrix, hence full rank, for all spin triples with 2j<=5 (ls_gram_orthonormal). The model is tied to GetA2BC_LS_list by exact comparison over the spin/parity grid on every run, and the restriction definitions filterL / filterLS of ls_restrict to HelicityDecay.get_ls_list(l_list= / ls_list=) on seeded decays (integer and half-integer s, int and float spellings).",
+    "note": "Model = TfPwaV.LS.lsList (hand-written, doubled spins) validated against the real GetA2BC_LS_list on the grid 2j<=8 x parities x p_break x ca (quick: 2j<=5 + 12000 sampled rows; thorough: whole grid). Full rank is proved for the exact CG model (2j<=5) and re-checked numerically on the real get_cg_matrix (2j<=5 quick, <=6 thorough); for restricted decays the matrix must be the corresponding rows of the unrestricted one (search). A user ls_list is compared in the order of the selection-rule list (the code returns the user's order verbatim; the order of couplings is not part of C13). Trusted: Lean kernel, standard axioms, harness.",
     "technique": "Lean 4 proof (unbounded membership/no-duplicate theorems, decide +kernel count over the full grid) + exhaustive grid correspondence with the implementation",
 }
